@@ -5,6 +5,7 @@ functions (fake groups whose determinant lists log every append) + composition c
 radial_volume_desolvation on real groups.
 Search: scan of every determinant of every conformation of real, mutated (Ser->Cys dyads, acid<->base neighbours), ion-decorated
 and custom-parameter runs against the sign rules and the configured maxima."""
+import itertools
 import math
 import os
 import tempfile
@@ -223,6 +224,11 @@ def scan(tag, mol, shared=False):
         cmax = E.UNK_PKA_SCALING1 / (E.UNK_DIELECTRIC2 * par.coulomb_cutoff1)
         bbmax = max([abs(v[0]) for v in par.backbone_NH_hydrogen_bond.values()] + [abs(v[0]) for v in par.backbone_CO_hydrogen_bond.values()])
         tit = conf.get_titratable_groups()
+        for ion in conf.groups:
+            rn_ = ion.atom.res_name.strip()
+            if ion.type == "ION" and rn_ in par.ions and ion.charge != par.ions[rn_]:
+                out.append(("ion-formal-charge", f"{tag}/{cname} ion {ion.label.strip()} (residue name {rn_}) carries charge {ion.charge}, configured {par.ions[rn_]}: "
+                            "its determinants are scaled by the wrong formal charge", {"ion": ion.label, "charge": ion.charge, "configured": par.ions[rn_]}))
         for g in tit:
             q = g.charge
             if shared and any(h.charge * q < 0 for h in g.covalently_coupled_groups):
@@ -478,6 +484,23 @@ def run(chk: common.Check):
         shared_cfg = custom_cfg({"shared_determinants": "1"})
         late_cfgs.append(shared_cfg)
         cases.append((f"{n} + pyrimidine + Ca with shared_determinants 1", t2, ["-p", shared_cfg]))
+    # an iron(II) ion (residue name FE2, charge 2) 3 A from the carboxylate of the buried ASP 102 of 3SGB
+    t3 = structures.read("3SGB.pdb")
+    od = next(([float(v) for v in structures.get_xyz(l)] for l in t3.splitlines() if structures.is_atom(l) and l[17:20] == "ASP" and l[21] == "E" and l[22:26].strip() == "102" and l[12:16].strip() == "OD1"), None)
+    if od:
+        al3 = [[float(v) for v in structures.get_xyz(l)] for l in structures.atom_lines(t3)]
+        best = None
+        for dx, dy, dz in itertools.product((-1.0, 0.0, 1.0), repeat=3):
+            n_ = math.sqrt(dx * dx + dy * dy + dz * dz)
+            if n_ == 0:
+                continue
+            p_ = [od[0] + 3.0 * dx / n_, od[1] + 3.0 * dy / n_, od[2] + 3.0 * dz / n_]
+            clash = min(math.dist(p_, a_) for a_ in al3)
+            if best is None or clash > best[0]:
+                best = (clash, p_)
+        p_ = best[1]
+        fe = f"HETATM 9300 FE   FE2 Z 950    {p_[0]:8.3f}{p_[1]:8.3f}{p_[2]:8.3f}  1.00  0.00          FE"
+        cases.append(("3SGB.pdb + FE2 ion 3 A from ASP 102 E", "\n".join(l for l in t3.splitlines() if l[:3] != "END") + "\n" + fe + "\nEND\n", []))
     # an ensemble: the same model twice (the average over conformations is reported too)
     body = "\n".join(l for l in structures.read("3SGB-subset.pdb").splitlines() if structures.is_atom(l) or l[:3] == "TER")
     cases.append(("3SGB-subset.pdb as two identical MODELs", f"MODEL        1\n{body}\nENDMDL\nMODEL        2\n{body}\nENDMDL\nEND\n", []))
@@ -487,7 +510,7 @@ def run(chk: common.Check):
     cfgs = []
     try:
         for ch in ({"desolvationAllowance": "0.10"}, {"desolvationAllowance": "0.25", "desolvationSurfaceScalingFactor": "0.5"},
-                   {"coulomb_cutoff1": "3.0", "sidechain_interaction": "0.60"}):
+                   {"coulomb_cutoff1": "3.0", "sidechain_interaction": "0.60"}, {"coulomb_diel": "4.0"}):
             path = custom_cfg(ch)
             cfgs.append(path)
             for n in ["3SGB-subset.pdb"] + (["1HPX.pdb"] if chk.thorough else []):
